@@ -326,6 +326,10 @@ def cmp(op, a, b):
         a, b = b, a
         op = "Lt" if op == "Gt" else "LtE"
     # constant folding
+    CONSTK = ("num", "str", "none", "bool")
+    if a[0] in CONSTK and b[0] in CONSTK and op in ("Eq", "NotEq", "Is", "IsNot") and not (a[0] == "num" and b[0] == "num"):
+        same = a == b
+        return ("bool", same if op in ("Eq", "Is") else not same)
     if a[0] == "num" and b[0] == "num":
         r = {"Lt": a[1] < b[1], "LtE": a[1] <= b[1], "Eq": a[1] == b[1], "NotEq": a[1] != b[1]}.get(op)
         if r is not None:
